@@ -25,6 +25,7 @@ try:
         specs.append((f"hist{k}", k, "clean"))
     specs += [("big", 100, "big"), ("wal-committed", 101, "hold-abort"), ("wal-uncommitted", 102, "crashmid"), ("wal-big", 103, "hold-abort-big")]
     specs.append(("huge", 104, "huge"))
+    specs.append(("max", 105, "max"))
     for name, seed, kind in specs:
         if only and name not in only:
             continue
@@ -47,6 +48,10 @@ try:
             # 40 MiB history segment and a 36 MiB snapshot, cheap content
             ops = ["ensure 1", "av 1 nil z:1000:1", "av 1 latest:1 z:41943040:2", "av 1 latest:1 b:3", "as 1 latest:1 z:37748736:4",
                    "av 1 latest:1 b:5", "ensure 2", "av 2 fresh b:1,2", "av 2 latest:2 z:17825792:6", "as 2 latest:2 b:7", "av 2 latest:2 b:8"]
+        if kind == "max":
+            # a snapshot of exactly the largest body the pinned release accepts over HTTP (100 MiB), cheap content
+            ops = ["ensure 1", "av 1 nil z:1000:1", "av 1 latest:1 b:3", "as 1 latest:1 z:104857600:4", "av 1 latest:1 b:5",
+                   "ensure 2", "av 2 fresh b:1,2", "as 2 latest:2 b:7", "av 2 latest:2 b:8"]
         ops += ["dumpall", f"savestate {d}/ids.txt"]
         if kind.startswith("hold"):
             ops.append("abort")
